@@ -200,8 +200,19 @@ def evalCase (s : S) (d : Doc) : IO Unit := do
     fields := (if scale s.cfg.tab d1 == d then "scale=eq" else "scale=diff") :: fields
   | none => pure ()
   -- printer model
-  match printDoc s.cfg (wdOf tbl) t with
-  | .ok (m, calls) =>
+  match printTwin { cfg := s.cfg.toP, wd := wdOf tbl } t with
+  | .ok (tw, calls) =>
+    let m := tw.fam s.cfg.tab
+    -- by-construction certificates (C01 token text, C06 comment text)
+    if s.cfg.reorder then fields := "tok=skip-reorder" :: fields
+    else if tokensCertified t tw then fields := "tok=ok" :: fields
+    else
+      fields := "tok=viol" :: fields
+      extra := s!"TOKDIFF good={tw.good} doc={oneLine tw.toks} tree={oneLine (specToks (prepare t))}" :: extra
+    if commentsCertified t tw then fields := "cmt=ok" :: fields
+    else
+      fields := "cmt=viol" :: fields
+      extra := s!"CMTDIFF good={tw.good} doc={oneLine tw.cmts} tree={oneLine (specCmts (prepare t))}" :: extra
     if let some c := s.cnt then
       fields := (if c == calls then "count=eq" else s!"count=diff:{calls}:{c}") :: fields
     let me := m.erase
